@@ -1064,5 +1064,98 @@ def history_cases():
     )
 
 
-SUITES = [RoundTrip(), History(), Truncations()]
+# ------------------------------------------------------------------ response-side assignment histories
+
+
+def _resp_history_case():
+    scalar = st.one_of(st.integers(-5, 5), st.text(alphabet='ab\u00e9', max_size=3), st.booleans(), st.none())
+    doc = st.one_of(st.dictionaries(st.sampled_from(['a', 'b', 'k']), scalar, max_size=3), st.lists(scalar, max_size=3))
+    op = st.one_of(
+        st.tuples(st.just('assign'), st.integers(0, 1)),
+        st.tuples(st.just('assign'), st.integers(0, 1)),
+        st.tuples(st.just('assign_copy'), st.integers(0, 1)),
+        st.tuples(st.just('mutate'), st.integers(0, 1), st.sampled_from(['a', 'z']), scalar),
+        st.tuples(st.just('render')),
+        st.tuples(st.just('render')),
+    )
+    return st.builds(lambda stack, docs, ops, last, renders: {'stack': stack, 'docs': docs, 'ops': [list(o) for o in ops] + [['assign', last]] + [['render']] * renders},
+                     st.sampled_from(['wsgi', 'asgi']), st.tuples(doc, doc).map(list), st.lists(op, max_size=7),
+                     st.integers(0, 1), st.integers(0, 2))
+
+
+class ResponseHistory(Suite):
+    """Response side: histories of resp.media assignments (the same object again, or an equal copy), in-place mutation of
+    the document between assignments, and early render_body() calls (as a digest / ETag middleware would make); the body
+    finally sent by a real app must decode to the document as it was when it was assigned last."""
+
+    name = 'response_history'
+    budget = {'quick': 2500, 'thorough': 60000}
+
+    def strategy(self, tier):
+        return _resp_history_case()
+
+    def run(self, case):
+        import copy
+        docs = [copy.deepcopy(d) for d in case['docs']]
+        ops = case['ops']
+        expected = {}
+        kinds = set()
+
+        def apply_sync(resp):
+            for op in ops:
+                k = op[0]
+                kinds.add(k)
+                if k == 'assign':
+                    resp.media = docs[op[1]]
+                    expected['doc'] = docs[op[1]]
+                elif k == 'assign_copy':
+                    c = copy.deepcopy(docs[op[1]])
+                    resp.media = c
+                    expected['doc'] = c
+                elif k == 'mutate':
+                    d = docs[op[1]]
+                    if isinstance(d, dict):
+                        d[op[2]] = op[3]
+                    else:
+                        d.append(op[3])
+                elif k == 'render':
+                    yield resp
+
+        if case['stack'] == 'wsgi':
+            class R(object):
+                def on_get(self, req, resp):
+                    for r in apply_sync(resp):
+                        r.render_body()
+            app = falcon.App()
+            app.add_route('/', R())
+            res = W.call(app, W.build_environ('GET', '/'))
+            if res.error is not None:
+                raise res.error
+            status, body = res.code, res.body
+        else:
+            class RA(object):
+                async def on_get(self, req, resp):
+                    for r in apply_sync(resp):
+                        await r.render_body()
+            app = falcon.asgi.App()
+            app.add_route('/', RA())
+            res = A.call(app, A.build_scope('GET', '/'))
+            if res.error is not None:
+                raise res.error
+            status, body = res.code, res.body
+        # mutations after the last assignment are not generated (the history always ends with assign [+ renders])
+        want = expected['doc']
+        try:
+            got = json.loads(body.decode('utf-8'))
+        except ValueError:
+            raise Violation('response_body_not_json', 'ops=%r body=%r' % (ops, body))
+        if status != 200 or got != want:
+            raise Violation('stale_rendered_media', '%s ops=%r docs(initial)=%r: body decodes to %r but the document assigned last is %r'
+                            % (case['stack'], ops, case['docs'], got, want))
+        seq = [o[0] for o in ops]
+        nt = 'mutate' in kinds and 'render' in seq[:-1] and seq.count('assign') + seq.count('assign_copy') >= 2
+        return Info(nt, [case['stack']] + sorted('op:' + k for k in kinds) + (['render_then_mutate_then_reassign'] if nt else []))
+
+
+SUITES = [RoundTrip(), History(), Truncations(), ResponseHistory()]
 KNOWN = {}
